@@ -147,7 +147,20 @@ def send_guard(ctx, rule="R-SEND-GUARD", rule_src="R-SEND-SRC"):
             inst2 = "ControllerApplication.%s: source address is the held address" % name
             if name == "send_request":
                 is_norm, _ = G.implies(F, normal)
-                if is_norm:
+                not_norm, _ = G.implies(F, mk_not(normal))
+                if not is_norm and not not_norm and srcv is not None and srcv[0] == "ife":
+                    # one path for both cases, the source chosen by a conditional expression: decide each case under its condition
+                    from .common import resolve_under
+                    sv = inline_props(ctx, f, srcv)
+                    s_n = resolve_under(sv, mk_bool("and", [F, normal]))
+                    s_o = resolve_under(sv, mk_bool("and", [F, mk_not(normal)]))
+                    if s_n == ADDR_F and s_o == NULL:
+                        ctx.holds(rule_src, inst2 + " (operational)")
+                        ctx.holds(rule_src, "ControllerApplication.send_request: request for address claim goes out from the null address 254")
+                    else:
+                        ctx.violated(rule_src, f, inst2, "request sent from %s when operational and from %s otherwise (expected the held address / 254)" % (
+                            pretty(s_n), pretty(s_o)), e.node)
+                elif is_norm:
                     if srcv == ADDR_F:
                         ctx.holds(rule_src, inst2 + " (operational)")
                     else:
